@@ -725,6 +725,30 @@ func genWrap(rng *Rng) Sx {
 	return List(Uint(uint64(c0)), ListOf(ops))
 }
 
+// a call times out (swept and reaped, its late reply never arrives); the counter goes once round and
+// a new call is given the same number: the response to the NEW call must complete it
+func genWrapTimedOut(rng *Rng) Sx {
+	c0 := uint16(rng.Intn(65536))
+	m := &aim{counter: c0}
+	var ops []Sx
+	old := m.call(1000)
+	ops = append(ops, Ints(0, int64(rng.Intn(2)), 1000), Ints(2, 2000))
+	if rng.Bool() {
+		ops = append(ops, Ints(3)) // completed with the time-out before the number comes round ...
+	}
+	ops = append(ops, Ints(4, 65534)) // the counter now stands just below the old number
+	ops = append(ops, Ints(0, int64(rng.Intn(2)), 0)) // the new call is given the old number
+	if rng.Bool() {
+		ops = append(ops, Ints(2, 30000)) // a sweep that must not touch the new call
+	}
+	ops = append(ops, Ints(3)) // ... or only now
+	errno := int64(rng.PickInt(0, 0, 9))
+	ops = append(ops, Ints(1, int64(old), 7, errno, 1)) // the reply to the new call
+	ops = append(ops, Ints(1, int64(old), 8, 0, 1))      // a duplicate of it: unmatched
+	ops = append(ops, Ints(2, 200000), Ints(3))
+	return List(Uint(uint64(c0)), ListOf(ops))
+}
+
 // every sequence number outstanding: checked on the Go side only (a 65535-entry table is
 // beyond what the association-list model evaluates in reasonable time)
 func fullTable(c0 uint16) (code int64, what string) {
@@ -1149,6 +1173,7 @@ func gen(a Args, out *Out) {
 	r1, r2, r3 := rng.Fork(), rng.Fork(), rng.Fork()
 	for i := 0; i < nwrap; i++ {
 		emit("wrap", genWrap(r2))
+		emit("wrap", genWrapTimedOut(r2))
 	}
 	r5 := rng.Fork()
 	for i := 0; i < nhist/8; i++ {
